@@ -371,6 +371,21 @@ fn run(ctx: &mut Ctx) {
         }),
         check_value,
     );
+    // atoms beyond every size a reader might cap a token at: 32 MiB and a bit
+    // (128 and 256 MiB in the thorough tier), string, symbol and byte vector,
+    // through the str, slice and reader entry points
+    {
+        let sizes: Vec<usize> = match tier {
+            Tier::Quick => vec![(1 << 25) + 17],
+            Tier::Thorough => vec![(1 << 25) + 17, (1 << 27) + 1, (1 << 28) + 5],
+        };
+        for &n in &sizes {
+            for kind in ["string", "symbol", "bytes"] {
+                ctx.observe("huge-atoms", check_huge_atom(kind, n));
+            }
+        }
+        ctx.flush_failures();
+    }
     // wide values: hundreds of repetitions of each construct in one text
     ctx.run_prop("wide", tier.pick(400, 10_000), g_wide(cfg(tier), tier.pick(400, 1500)), check_value);
     // atoms at the buffer-size thresholds (256 B .. 64 KiB, thorough 128 KiB), alone and followed by a string
@@ -506,7 +521,40 @@ fn run(ctx: &mut Ctx) {
     ];
 }
 
+fn check_huge_atom(kind: &str, n: usize) -> CaseResult {
+    let kind: &'static str = match kind {
+        "string" => "string",
+        "symbol" => "symbol",
+        _ => "bytes",
+    };
+    let v = match kind {
+        "string" => lexpr::Value::string("s".repeat(n)),
+        "symbol" => lexpr::Value::symbol("y".repeat(n)),
+        _ => lexpr::Value::from(vec![7u8; n / 2]),
+    };
+    let v = lexpr::Value::list(vec![lexpr::Value::from(1), v, lexpr::Value::symbol("end")]);
+    let r = catch(|| -> Result<(), String> {
+        let text = lexpr::to_string(&v).map_err(|e| format!("to_string: {}", e))?;
+        let a = lexpr::from_str(&text).map_err(|e| format!("from_str: {}", e))?;
+        let b = lexpr::from_slice(text.as_bytes()).map_err(|e| format!("from_slice: {}", e))?;
+        let c = lexpr::from_reader(std::io::Cursor::new(text.as_bytes())).map_err(|e| format!("from_reader: {}", e))?;
+        let d = lexpr::from_reader(std::io::BufReader::with_capacity(1 << 16, std::io::Cursor::new(text.as_bytes()))).map_err(|e| format!("from_reader(BufReader): {}", e))?;
+        if a != v || b != v || c != v || d != v {
+            return Err(format!("read back differently (str {}, slice {}, reader {}, bufreader {})", a == v, b == v, c == v, d == v));
+        }
+        Ok(())
+    });
+    match r {
+        Ok(Ok(())) => Ok(Eval::new(true, digest_of(&(n, kind))).class("huge-atom")),
+        Ok(Err(e)) => Err(Failure::new(format!("C01 stage=huge-atom kind={} entry={}", kind, e.split(':').next().unwrap_or("?")), format!("a {} of {} bytes inside a list: {}", kind, n, clip(&e, 200)), json!({"huge": {"kind": kind, "n": n}}))),
+        Err(pm) => Err(Failure::new(format!("C01 stage=huge-atom kind={} panic={}", kind, panic_sig(&pm)), pm, json!({"huge": {"kind": kind, "n": n}}))),
+    }
+}
+
 fn replay(_sub: &str, case: &Json) -> Option<CaseResult> {
+    if let Some(h) = case.get("huge") {
+        return Some(check_huge_atom(h.get("kind")?.as_str()?, h.get("n")?.as_u64()? as usize));
+    }
     let mv: MV = serde_json::from_value(case.get("value")?.clone()).ok()?;
     Some(check_value(&mv))
 }
